@@ -10,13 +10,13 @@ def prop(id, claimed, engine, cat, technique, text, note, ref, reason=""):
 TRUST = "Trusted: in-package harness and reference model, explorer packages under /verif/mc, Go toolchain, this kernel. "
 
 prop("C09", True, "seqmc", MC, "explicit-state model checking (BFS with state dedup) of the implementation against a reference FIFO",
-     "All reachable (size,r,w,isEmpty) states of rings up to a capacity bound are enumerated and closed under every operation of the alphabet, plus depth-bounded search from seed states around the 1 KiB/4 KiB/5 KiB/8 KiB growth thresholds; every transition runs on the real ring.Buffer and is compared with a FIFO reference.",
+     "All reachable (size,r,w,isEmpty) states of rings up to a capacity bound are enumerated and closed under every operation of the alphabet, plus depth-bounded search from seed states around the 1 KiB/4 KiB/5 KiB/8 KiB growth thresholds; every transition runs on the real ring.Buffer and is compared with a FIFO reference; the state key carries every scalar field of the real object (seqmc.Scalars), Bytes() is checked for not aliasing the ring's storage, and ReadFrom must offer a conforming reader room.",
      TRUST + "Bounded: capacity bound for the closure, depth for large rings, scripted reader/writer answers (n in {0,1,len-1,len} x {nil,EOF,error}).", "DESIGN.md §3, §5/C09")
 prop("C10", True, "seqmc", MC, "explicit-state model checking (BFS with state dedup) of the implementation against a reference FIFO",
      "All operation sequences up to a depth on the real elastic.Buffer (static limits 1,4,1024,1025,...) and elastic.RingBuffer, and on a pair of them sharing the ring pool, with every Peek(n) for n in 1..Buffered on small contents; every transition compared with a flat FIFO reference.",
      TRUST + "Bounded: depth, list length and ring capacity bounds; single-threaded pool behaviour.", "DESIGN.md §3, §5/C10")
 prop("C11", True, "seqmc", MC, "explicit-state model checking (BFS with state dedup) of the implementation against a reference segment queue",
-     "All operation sequences up to a depth on the real linkedlist.Buffer with segment sizes incl. 0 and non-powers of two, read sizes ending inside segments, scripted readers/writers; compared with a [][]byte reference incl. copy semantics, Buffered, Len, IsEmpty.",
+     "All operation sequences up to a depth on the real linkedlist.Buffer with segment sizes incl. 0 and non-powers of two, read sizes ending inside segments, scripted readers/writers; compared with a [][]byte reference incl. copy semantics, Buffered, Len, IsEmpty; PeekWithBytes with up to two extra segments and limits inside each of them; ReadFrom must offer a conforming reader room; the state key carries every scalar field of the real object.",
      TRUST + "Bounded: depth and number of segments.", "DESIGN.md §3, §5/C11")
 prop("C20", True, "seqmc", "exploration", "bounded-exhaustive enumeration of the input domain against an interval-derived reference",
      "Every int32 (thorough) / every int in [-70000, 2^24] (quick) plus dense windows around every power of two up to 2^62 for the four math functions, every size 1..MaxInt32 for the byte-slice pool's size-class function (and, beyond the statement, every size up to 2^26 for the ring-buffer pool's), and the full field ranges of the connection identifier.",
@@ -26,16 +26,16 @@ prop("C12", True, "seqmc", MC, "explicit-state model checking (BFS with state de
      "All Get/Put/PutForeign/GC sequences up to a depth on a fresh byteslice.Pool (sizes around class boundaries, re-sliced and foreign slices of odd capacity, garbage collections) with an address ledger that detects overlap with outstanding slices and hand-outs reaching beyond a returned slice's capacity; same for the ring-buffer pool (empty, not shared) incl. a scripted run across the calibration threshold.",
      TRUST + "Single-threaded per process (sync.Pool is per-P); classes >= 2^27 not allocated; data races are decided under C05.", "DESIGN.md §3, §5/C12")
 prop("C14", True, "seqmc", MC, "explicit-state model checking (BFS to closure) of both registry implementations against a reference map",
-     "Closure of all reachable registry layouts for small descriptor alphabets on the map registry, the gc_opt matrix with the real geometry, and the gc_opt matrix with scaled geometries 4x2 and 4x4 (row-boundary crossings enumerable), plus scripted 65538-connection populations on the real geometry; lookups of every descriptor, count, visit-exactly-once, shutdown pattern and the stored indexes of every live connection checked after each transition.",
+     "Closure of all reachable registry layouts for small descriptor alphabets on the map registry, the gc_opt matrix with the real geometry, and the gc_opt matrix with scaled geometries 4x2 and 4x4 (row-boundary crossings enumerable), plus scripted 65538-connection populations on the real geometry; lookups of every descriptor, count (also at every visit of an iteration), visit-exactly-once, shutdown pattern, early-stopped iteration and the stored indexes of every live connection checked after each transition; the state key carries every scalar field of the real registry (compaction switch, cursor, per-row counts).",
      TRUST + "Scaled geometry changes only the two geometry constants of internal/gfd (asserted by the rewriter).", "DESIGN.md §3, §5/C14")
 prop("C15", True, "seqmc", MC, "exhaustive enumeration of policy inputs and explicit-state BFS of the least-connections transition system on the real load balancers",
      "Round-robin for every N in 1..256 from a fresh cursor and from cursor values around 2^16/2^31/2^32, least-connections as BFS over accept/close sequences plus every count vector in {0..3}^N (N<=5), source-addr-hash for every N in 1..256 over an address alphabet, all on the real loadBalancer implementations with real connection counters.",
      TRUST + "Policy part uses fake loops; the live clause (callbacks run on the assigned loop) is decided by the scheduler-based engine unit when present in the evidence.", "DESIGN.md §5/C15")
 prop("C16", True, "seqmc", "exploration", "bounded-exhaustive enumeration of strings, grammar derivations and integer options",
-     "Every string up to length 5 (6 thorough) over a 20-symbol alphabet behind 5 prefixes, every derivation of an address grammar, every capacity/chunk value in [-2,2^17] and around every power of two up to 2^62 through createListeners and NewClient, every (Multicore, NumEventLoop) pair.",
+     "Every string up to length 5 (6 thorough) over a 20-symbol alphabet behind 5 prefixes (error identity pinned for missing scheme, empty endpoint, and unknown scheme in the scheme://rest and the opaque scheme:rest spelling), every derivation of an address grammar, every capacity/chunk value in [-2,2^17] and around every power of two up to 2^62 through createListeners and NewClient, every (Multicore, NumEventLoop) pair.",
      TRUST + "Strings outside the alphabet/length bound are not covered; error identity is only checked where the statement pins it down.", "DESIGN.md §5/C16")
 prop("C17", True, "seqmc", "exploration", "bounded-exhaustive enumeration of address conversions",
-     "net.Addr -> sockaddr -> net.Addr for {tcp,udp,ip} x IP alphabet x all 65536 ports x zones, unix names x networks, invalid IP lengths, zone index round trip for every index of a range.",
+     "net.Addr -> sockaddr -> net.Addr for {tcp,udp,ip} x IP alphabet x all 65536 ports x zones, unix names x networks, invalid IP lengths, address family of the result (IPv4 in either spelling without zone -> AF_INET), zone index round trip for every index of a range.",
      TRUST + "Zones compared by interface index on this host; the live clause (RemoteAddr/LocalAddr at every callback under churn) is decided by the scheduler-based engine unit when present in the evidence.", "DESIGN.md §5/C17")
 
 prop("C03", True, "sched", MC, "stateless model checking (preemption-bounded DFS under a cooperative scheduler) of the real poller and task queues on real epoll/eventfd",
@@ -73,7 +73,7 @@ prop("C05", True, "sched", MC, "stateless model checking of the -race build with
      "16 scenarios of user goroutines calling the documented concurrency-safe API (AsyncWrite/AsyncWritev/Wake/Close/CloseWithCallback/SafeContext/SetSafeContext/Fd/Dup/socket options/Execute/Register/CountConnections/Stop) against accept, traffic, close, tick, engine start and stop x {LT,ET}: every schedule within the delay bound is judged by the race detector on gnet's own happens-before relation and by a confinement monitor (one thread per loop, no overlapping callbacks); the same scenarios on the poll_opt and gc_opt builds (-race too), incl. CountConnections racing with the close of the older of two connections and a failing registration travelling back to the Register caller; a non-race unit checks one-thread-per-loop for a two-loop server with cross-loop closes and a two-loop client with concurrent Enroll calls.",
      ENGINE_NOTE + "Races are found between accesses executed in explored schedules; the detector's shadow memory keeps a bounded history; self-test control: MC_C05_CONTROL=1 (non-safe SetContext from another goroutine) must be reported.", "DESIGN.md §2.1, §5/C05")
 prop("C08", True, "sched", MC, "stateless model checking (delay- and deviation-bounded DFS) of the real engine with UDP listeners on loopback, plus a bounded-exhaustive datagram size sweep",
-     "IPv4 and IPv6 loopback, 1-2 loops, 1-2 senders x 1-3 datagrams of sizes {0,1,2,5,1023,1024,65507}: every handler consumption/reply choice within the deviation bound and every schedule within the delay bound; one datagram of every size 0..65507 (thorough; every 97th quick); exactly one OnTraffic per datagram with exactly its payload and the sender's address, each reply exactly one datagram at the addressed socket.",
+     "IPv4 and IPv6 loopback, 1-2 loops, 1-2 senders x 1-3 datagrams of sizes {0,1,2,5,1023,1024,65507}: every handler consumption/reply choice within the deviation bound and every schedule within the delay bound; one datagram of every size 0..65507 (thorough; every 97th quick); exactly one OnTraffic per datagram with exactly its payload and the sender's address, each reply exactly one datagram at the addressed socket (the reply to an empty datagram is an empty datagram).",
      ENGINE_NOTE + "Loopback UDP delivery assumed synchronous (guarded by a bounded settle step).", "DESIGN.md §5/C08")
 
 REASON_WIP = "check under construction in this build phase (machinery not committed yet)"
